@@ -43,6 +43,10 @@ def rule_key(rule, path, msg, out):
         elif "UUIDv4" in msg:
             form = "not-v4"
         return "invalid-emitted:%s:%s" % (rule, form)
+    if rule in ("object-ref-unresolved", "object-ref-type"):
+        comps = [c for c in path.split(".") if c]
+        # objects.<key>.<prop> is a property of the container member itself; anything deeper sits in an embedded object or extension
+        return "invalid-emitted:%s:%s" % (rule, "nested-in-embedded-or-extension" if len([c for c in comps if not c.startswith("[")]) > 3 else "member-property")
     if rule == "unknown-extension":
         return "invalid-emitted:unknown-extension" + (":extension-definition-in-2.0" if "'extension-definition--" in msg else "")
     if rule == "out-of-range":
